@@ -7,6 +7,7 @@ import Nstd.Future.SafetyFault
 import Nstd.Future.LiveWorker
 import Nstd.Future.Progress
 import Nstd.Future.Handshake
+import Nstd.Future.HandshakeWitness
 /-
   Property C10 — "every Future call runs exactly once and join waits for its result".
 
@@ -111,6 +112,14 @@ theorem state_after_join {cfg : Config} {s : State} (hwf : cfg.WellFormed) (h : 
     {f c : Nat} (hj : (s.futs f).joinable = false) (hc : (s.futs f).curCall = some c) :
     ((s.futs f).state = 2 ∨ (s.futs f).state = 3) ∧ ((s.futs f).state = 3 → (s.futs f).abortReq = true) :=
   Nstd.Future.state_after_join hwf h hj hc
+
+/-- With the repaired `Signal::set` (broadcast before unlock): when `~Future` destroys the future's Signal, no other thread
+    is inside any operation on that Signal — the worker's last access to the future happens before `join` returns.
+    (False for the original order: broadcast-after-unlock touches a destroyed condition variable.) -/
+theorem future_destroyed_only_when_unused {cfg : Config} {s : State} (hwf : cfg.WellFormed) (hrep : cfg.repaired = true)
+    (h : Reach cfg s) {t u : Tid} {f : Nat} {x : Frame} (htop : topFrame s t = some (.destroyF f))
+    (hu : u ≠ t) (hx : topFrame s u = some x) : sigFrameOf (f + 2) x = false :=
+  destroy_no_signal_user hwf hrep h htop hu hx
 
 /-- non-vacuity: a well-formed configuration (two clients on different futures) -/
 example : hsCfg.WellFormed := by
